@@ -25,6 +25,8 @@ def configs(tier):
         for opt in (("sgd",) if fault != "sched" else ("sched",)):
             out.append(dict(fault=fault, opt=opt, n_iter=N_, n=3 if tier == "quick" else 4, b=2, x64=True))
     out.append(dict(fault="none", opt="sgd", n_iter=N_, n=3, b=2, x64=True))
+    # the generator is set up for residual-adaptive refinement (burn-in longer than the run: no step ever fires)
+    out.append(dict(fault="grad_theta", opt="sgd", n_iter=N_, n=3, b=2, rar=True, x64=True))
     return out
 
 
@@ -104,7 +106,11 @@ def run(cfg, R):
         loss = LossODE(u=u, dynamic_loss=Eq(Tmax=1), initial_condition=(jnp.array(0.25), jnp.array([0.5])), derivative_keys=dk, params=params)
         return u, params, loss
     u0, params, _ = build(fk, ft)
-    data = DG.DataGeneratorODE(key, n, 0.0, 1.0, b)
+    if cfg.get("rar"):
+        data = DG.DataGeneratorODE(key, n + 2, 0.0, 1.0, b, nt_start=n,
+                                   rar_parameters={"start_iter": 1000, "update_every": 1, "sample_size_times": 2, "selected_sample_size_times": 1})
+    else:
+        data = DG.DataGeneratorODE(key, n, 0.0, 1.0, b)
     lr = jnp.array(0.125); sched = jnp.arange(1, n_iter + 2) * 0.125
     tracked = Params(nn_params=None, eq_params={"theta": True, "kappa": True})
     R.note(functions=["jinns.solve", "jinns.solver._solve._gradient_step", "_get_break_fun", "jinns.utils._utils._check_nan_in_pytree", "_store_loss_and_params"],
@@ -137,7 +143,7 @@ def run(cfg, R):
             refs.append((p_, val, terms))
         return out, refs
 
-    name = f"{fault}/{optn}/it{n_iter}" + ("/validated-every-iteration" if with_val else "")
+    name = f"{fault}/{optn}/it{n_iter}" + ("/validated-every-iteration" if with_val else "") + ("/rar-generator" if cfg.get("rar") else "")
     tr = R.trace(name, f, (lr, sched, params, data, fk, ft), key=f"{fault}:raises", use_stubs=True, missing="example")
     if tr is None: return
 
